@@ -308,6 +308,25 @@ pub fn c14(cx: &mut Ctx) {
             }
         }
     }
+    // many values under the names a redirect suppresses (cookie x 4, authorization x 2, an explicit Host, a
+    // Content-Length): the suppression is by name, however many lines carry it
+    for (ci, ncookie) in [1usize, 2, 4, 9].iter().enumerate() {
+        for t in ["http://b.test/t", "/same"] {
+            for policy in ["never", "samehost"] {
+                cx.case("manyvals");
+                let _ = ci;
+                let cookies: Vec<String> = (0..*ncookie).map(|k| format!("c{}=v{}", k, k)).collect();
+                let mut hs: Vec<(&str, &[u8])> = vec![("authorization", b"Basic YQ=="), ("host", b"virtual.test")];
+                for c in &cookies { hs.push(("cookie", c.as_bytes())); }
+                hs.push(("authorization", b"Bearer t"));
+                hs.push(("content-length", b"5"));
+                if cx.rec.new_flow(&format!("POST HTTP/1.1 http://a.test/o {}", super::hdrs(&hs))) != "ok" { continue; }
+                let h = Hop { status: 303, locations: vec![t.as_bytes().to_vec()], body: false };
+                if !exchange_to_redirect(cx, &h) { continue; }
+                if cx.op(&format!("follow {}", policy)).starts_with("flow ") { cx.op("uri?"); cx.op("method?"); cx.op("proceed"); cx.op("write 65536"); cx.op("canproceed"); }
+            }
+        }
+    }
     // dot segments in every position of a path-absolute or relative Location — last segment, before the query,
     // the whole path — on the first and on the second hop (the second hop's base is a URI the library made)
     for loc in ["/docs/v2/..", "/docs/v2/.", "/a/b/..?page=2", "/a/b/.?x", "/..", "/.", "/a/..", "/a/.", "/a/b/../..", "/a/./b/..", "/a/b/..#f", "a/..", "a/.", "../..", "/a/..;p", "/a/...", "/a/.b", "/a/b/%2e%2e"] {
